@@ -586,8 +586,57 @@ func (c *Ctx) isNew(f *ssa.Function) bool {
 	if f == nil || f.Blocks == nil || !c.IsLib(f) || f.Synthetic != "" {
 		return false
 	}
-	_, known := frozenParams[c.Name(f)]
+	_, known := frozenParams[c.alias(f)]
 	return !known
+}
+
+// alias: the name under which a function is known to the frozen tables. A function that is not in them but carries
+// the simple name of exactly one function of the reviewed tree that no longer exists is that function under a new
+// receiver (a function turned into a method or the reverse, a receiver type renamed): the old name.
+func (c *Ctx) alias(f *ssa.Function) string {
+	n := c.Name(f)
+	if _, known := frozenParams[n]; known || f.Parent() != nil {
+		return n
+	}
+	if c.aliases == nil {
+		c.aliases = map[*ssa.Function]string{}
+	}
+	if a, ok := c.aliases[f]; ok {
+		return a
+	}
+	base := func(s string) string {
+		if i := strings.LastIndex(s, "."); i >= 0 {
+			return s[i+1:]
+		}
+		return s
+	}
+	var cands []string
+	for old := range frozenParams {
+		if strings.HasSuffix(old, "#free") || strings.Contains(old, "$") || base(old) != f.Name() {
+			continue
+		}
+		if _, still := c.Funcs[old]; still {
+			continue
+		}
+		cands = append(cands, old)
+	}
+	res := n
+	if len(cands) == 1 {
+		// and no other new function claims the same old name
+		others := 0
+		for _, g := range c.FuncSeq {
+			if g != f && g.Parent() == nil && g.Name() == f.Name() {
+				if _, known := frozenParams[c.Name(g)]; !known {
+					others++
+				}
+			}
+		}
+		if others == 0 {
+			res = cands[0]
+		}
+	}
+	c.aliases[f] = res
+	return res
 }
 
 // soleCall: the only call site (in the two packages) of a new function; nil when there are several, none, or the
